@@ -1,5 +1,6 @@
 import OapiVerif.Model.Names
 import OapiVerif.Gen.C01
+import OapiVerif.Proofs.Comment
 /-!
 C01 — Generated code compiles, for every supported spec and configuration.
 
@@ -111,3 +112,41 @@ example : sanitizeGoIdentity asciiUni (w "type") = w "_type" := by decide
 example : schemaNameToTypeName asciiUni (toCamelCase asciiUni) (w "1abc") = w "N1abc" := by decide
 
 end OapiVerif.Names
+
+namespace OapiVerif.Comment
+
+/-- A description — any text: newlines of every kind, `*/`, quotes, Go code — never leaves its comment: what
+`toGoComment` / `StringToGoComment` / `DeprecationComment` render is empty or a sequence of lines each beginning with `//`
+(the type name that may stand in the first line has no newline). A `//` comment ends at the newline and nowhere else, so
+nothing of the description is ever read as Go. -/
+theorem C01_description_stays_in_comment (input prefx : Str) (hp : 10 ∉ prefx) :
+    allCommented (comment input prefx) = true := comment_all_commented input prefx hp
+
+/-- No carriage return survives (gofmt would otherwise see a different line structure than the compiler). -/
+theorem C01_comment_has_no_carriage_return (input prefx : Str) (hp : 13 ∉ prefx) : 13 ∉ comment input prefx := by
+  unfold comment
+  split
+  · simp
+  · intro h
+    have h' : 13 ∈ first prefx ++ body (normalize input) := by
+      unfold trimTail at h
+      split at h
+      · exact List.mem_of_mem_take h
+      · exact h
+    simp only [List.mem_append] at h'
+    rcases h' with h' | h'
+    · unfold first at h'
+      split at h' <;> simp [slashes, hp] at h'
+    · rcases mem_body _ _ h' with h'' | h'' | h'' | h''
+      · exact mem_normalize _ _ h'' rfl
+      all_goals omega
+
+/-- An empty or all-blank description gives no comment at all. -/
+theorem C01_blank_description_no_comment (input prefx : Str) (h : input.all isSpace = true) : comment input prefx = [] := by
+  simp [comment, h]
+
+/-- Non-vacuity: a description that tries to close the comment and open code. -/
+example : comment [97, 13, 10, 42, 47, 10, 102, 117, 110, 99, 10] [84] =
+    [47, 47, 32, 84, 32, 97, 10, 47, 47, 32, 42, 47, 10, 47, 47, 32, 102, 117, 110, 99] := by decide
+
+end OapiVerif.Comment
